@@ -74,6 +74,9 @@ CLAIMED = {
  "C06": ("obligation analysis: enumeration of every panic-capable SSA instruction in the functions reachable (CHA) from the parsing/validation/evaluation/scope/builtin/engine entry points; automatic discharge by dominating and path-sensitive facts, range loops, callee/slot typing and the AST-shape tables; reviewed table; known findings",
          "Every unchecked type assertion, index/slice with unproven bounds, integer division, interface comparison, interface-keyed map operation, possibly negative make, panicking API call, nil error type and dereference of a constructed node's token in ~590 reachable functions (≈520 obligations) is discharged by a sound rule, by one of 106 reviewed entries (one named construct, one line of reason) or reported. "
          "A new unguarded construct anywhere on these paths is a VIOLATION naming the instruction and a call chain from an entry point. General nil-pointer freedom, user-written non-termination and library internals are not claimed.", "3/C06"),
+ "C16": ("obligation analysis over the debugger command implementations and the debugger methods they reach, lazy-field nil-test rule, lockflow pairing (incl. unlock/relock windows) of every debugger method",
+         "Structural necessary conditions of a total command interface decided from source: every panic-capable instruction reachable from a debug command is discharged by a dominating argument/state check or a reviewed invariant; fields the debugger learns only during evaluation are nil-tested before use; "
+         "every debugger method releases the debugger lock on every path and every unlock/relock window is balanced. JSON-encodability of results and blocking on program-held locks are not decided.", "3/C16"),
 }
 
 NOT_YET = "check not built yet in this session (see DESIGN.md section 3 for the planned static rule)"
